@@ -37,6 +37,12 @@ const CONFIG: &str = ".darklua.json";
 const ENTRY: &str = "src/app/main.lua";
 
 const CONF: &str = "lib/conf.json";
+const SIBLINGS: [&str; 4] = [
+    "src/sub.lua",
+    "src/sub_extra/x.lua",
+    "src/sub/deep.lua",
+    "src/sub/deep_x/y.lua",
+];
 const LUAURC: &str = ".luaurc";
 /// a closer `.luaurc` shadows the one at the root for the files below `src/`
 const NESTED_LUAURC: &str = "src/.luaurc";
@@ -205,6 +211,11 @@ fn initial_files() -> BTreeMap<String, String> {
         PACKAGES[0],
         PACKAGES[1],
     ] {
+        files.insert(path.to_owned(), template(path, 1));
+    }
+    // siblings whose names merely START like a directory that histories remove: `src/sub` and
+    // `src/sub/deep` are directories, these are not below them
+    for path in SIBLINGS {
         files.insert(path.to_owned(), template(path, 1));
     }
     files.insert("src/notes.txt".to_owned(), "not lua\n".to_owned());
@@ -983,6 +994,31 @@ fn main() {
                 }
             }
         }
+        "siblings" => {
+            // removing a directory must not touch the files whose path only starts with the same
+            // characters (`src/sub` vs `src/sub.lua`, `src/sub_extra/x.lua`)
+            let histories = [
+                "D:src/sub P",
+                "D:src/sub P E:src/sub.lua:3 E:src/sub_extra/x.lua:4 P",
+                "D:src/sub E:src/sub.lua:3 P E:src/sub_extra/x.lua:4 P",
+                "D:src/sub/deep P",
+                "D:src/sub/deep P E:src/sub/deep.lua:3 E:src/sub/deep_x/y.lua:4 P",
+                "D:src/sub/deep E:src/sub/deep.lua:3 P E:src/sub/deep_x/y.lua:4 P",
+                "D:src/sub/deep P A:src/sub/deep/c.lua:5 P E:src/sub/deep.lua:6 P",
+                "R:src/sub.lua P",
+                "R:src/sub.lua P D:src/sub P",
+                "R:src/sub/deep.lua P D:src/sub/deep P E:src/sub/deep_x/y.lua:4 P",
+                "D:src/sub_extra P E:src/sub.lua:3 E:src/sub/b.lua:4 P",
+                "D:src/sub/deep_x P E:src/sub/deep/c.lua:3 E:src/sub/deep.lua:4 P",
+                "E:src/sub/deep.lua:2 D:src/sub/deep P",
+                "D:src/sub/deep C:1 P E:src/sub/deep.lua:3 P",
+                "D:src/sub/deep P R:src/sub/deep_x/y.lua P A:src/sub/deep_x/y.lua:5 P",
+                "D:src/sub P A:src/sub/b.lua:5 P E:src/sub.lua:6 P",
+            ];
+            for history in histories {
+                emit(run_with_limit(parse_history(history), limit));
+            }
+        }
         "breakfix" => {
             // break a bundled file in every way, process, repair it (back to the original or to
             // new content), process, then touch every position of the dependency graph, process
@@ -1063,7 +1099,7 @@ fn main() {
             let _ = std::fs::remove_dir_all(root.join("fresh"));
         }
         _ => {
-            eprintln!("usage: dl-c10 run|enum|random|breakfix|luaurc|disk ...");
+            eprintln!("usage: dl-c10 run|enum|random|breakfix|luaurc|siblings|disk ...");
             std::process::exit(2);
         }
     }
